@@ -262,6 +262,9 @@ func init() {
 			{"check-all-loop", "a loop that rejects on a property of each element with an error return is not left early with a break (the elements after it would escape the check)", func(c *Ctx) { ruleCheckAllLoop(c, "pkg/core/native", "pkg/core/state") }},
 			{"local-option-outcome", "nothing fails (error return, panic) inside a branch taken only when the node-local SaveInvocations option is on", ruleLocalOptionOutcome},
 			{"serctx-alias", "the buffer SerializationContext.Serialize returns (valid only until the next Serialize of the same execution) is measured, copied or handed to copying sinks, never kept in a stack item, a struct or a slice", ruleSerCtxAlias},
+			{"wild-nonnil", "the stack-item decoder of a manifest - through which a restarted node rebuilds the contracts cache from storage - never turns an explicit (possibly empty) method/trust list into the nil that means wildcard: the running node holds the manifest parsed at deployment, the restarted one what this decoder yields", ruleWildNonNil},
+			{"swap-order", "a failed flush puts the old maps back merged with everything written during the flush (both twins), so that however often and whenever the node flushes - successfully or not - no block's storage changes are lost", ruleSwapOrder},
+			{"twin-maps", "whatever a store does to one of its twin maps (mem, stor) as a whole it does to the other in the same or in a twin statement: contract storage is flushed, merged and restored together with everything else", ruleTwinMaps},
 			{"cache-ro", "no write (field, element, delete/clear/copy, or through a parameter-mutating callee) through a native cache obtained with GetROCache, on any path (isCacheRW idiom handled by boolean correlation)", ruleCacheRO},
 			{"det-sources", "no wall clock, random source, environment or scheduler introspection is read in the closure of block processing except for values that flow only into logging/metrics", ruleDetSources},
 			{"det-maprange", "every map iteration in the closure of block processing is order-insensitive (keyed updates, or collected then sorted) or tabled with a reason", ruleDetMapRange},
